@@ -147,6 +147,43 @@ int main(int argc, char** argv) {
       CL::Paths64 rc = CL::RectClip(CL::Rect64(-M / 2 - 1, -M / 2 - 1, M / 2 + 1, M / 2 + 1), CL::Paths64{q}); (void)rc;
       bump(C_LIB, 20); },
     [&, bases](u64 i) { bool open = i % 2; i /= 2; int L = LAPS[i % 6]; i /= 6; Case k; k.set("f", "laps").set("base", Paths{bases[i]}).set("laps", L).set("open", open).set("mag", magclass); return k.s(); }});
+  // ---- F8d: dense small-lattice triangles (micro self-intersections of output rings: FixSelfIntersects / DoSplitOp run and append
+  // to the outrec list while the solution is being built) through ClipperD (PathsD and PolyTreeD) and Clipper64
+  if (magclass == 0 && want("bool_dense")) fam.push_back({"bool_dense", (u64)25 * 25 * 25 * 27, [&](u64 i, bool) {
+      u64 ci = i % 27; i /= 27; int a0 = (int)(i % 25), a1 = (int)(i / 25 % 25), a2 = (int)(i / 625);
+      if (!(a0 < a1 && a0 < a2 && a1 != a2)) return;   // rotation-normalised distinct triples only
+      int c0 = (int)(ci % 3), c1 = (int)(ci / 3 % 3), c2 = (int)(ci / 9);   // clip: one point from each row of the coarse lattice {0,2,4}^2
+      auto L = [](int k) { return CL::PointD((double)(k % 5), (double)(k / 5)); };
+      CL::PathsD S{{L(a0), L(a1), L(a2)}}, C{{CL::PointD(2.0 * c0, 0.0), CL::PointD(2.0 * c1, 2.0), CL::PointD(2.0 * c2, 4.0)}};
+      // 0..3 separate far squares, listed BEFORE and AFTER the triangle: the outrec list then holds 1..5 records when a ring is split,
+      // i.e. also exactly as many as its capacity, and the split ring is not the last one
+      for (int extra = 0; extra < 4; ++extra) {
+        CL::PathsD S2; for (int j = 0; j < extra; ++j) if (j % 2 == 0) S2.push_back({CL::PointD(20.0 + 3 * j, 20.0), CL::PointD(22.0 + 3 * j, 20.0), CL::PointD(22.0 + 3 * j, 22.0), CL::PointD(20.0 + 3 * j, 22.0)});
+        S2.push_back(S[0]); for (int j = 0; j < extra; ++j) if (j % 2 == 1) S2.push_back({CL::PointD(20.0 + 3 * j, 20.0), CL::PointD(22.0 + 3 * j, 20.0), CL::PointD(22.0 + 3 * j, 22.0), CL::PointD(20.0 + 3 * j, 22.0)});
+        for (int ct = 2; ct <= 4; ct += 2) {
+          CL::ClipperD cd(0); cd.AddSubject(S2); cd.AddClip(C); CL::PathsD sol; cd.Execute((CL::ClipType)ct, CL::FillRule::NonZero, sol);
+          CL::ClipperD ct2(0); ct2.AddSubject(S2); ct2.AddClip(C); CL::PolyTreeD tr; ct2.Execute((CL::ClipType)ct, CL::FillRule::EvenOdd, tr);
+          if (!sol.empty()) bump(C_NONTRIVIAL);
+        }
+      }
+      bump(C_LIB, 16); },
+    [&](u64 i) { u64 ci = i % 27; i /= 27; Case k; k.set("f", "bool_dense").set("s", (long long)i).set("c", (long long)ci); return k.s(); }});
+  // ---- F8c: paths whose vertex counts sit on and around machine-word multiples (bit vectors, block-wise buffers): zigzags and sampled ellipses
+  static const int LENS[] = {31, 32, 33, 63, 64, 65, 127, 128, 129, 191, 192, 193, 256};
+  if (magclass <= 1 && want("longpaths")) fam.push_back({"longpaths", 13 * 2 * 2, [&](u64 i, bool) {
+      bool open = i % 2; i /= 2; bool ell = i % 2; i /= 2; int n = LENS[i];
+      CL::Path64 q;
+      if (ell) q = CL::Ellipse(CL::Point64((int64_t)0, (int64_t)0), 300.0 * (double)M, 200.0 * (double)M, (size_t)n);
+      else for (int k = 0; k < n; ++k) q.emplace_back((int64_t)(k * 7) * M, (int64_t)((k % 2) * 3 + (k % 5)) * M);
+      double eps = (double)M * 1.5;
+      CL::Path64 t = CL::TrimCollinear(q, open), sp = CL::SimplifyPath(q, eps, !open), rd = CL::RamerDouglasPeucker(q, eps), ne = CL::StripNearEqual(q, eps * eps, !open);
+      CL::Paths64 pp{q, sp}; CL::Paths64 s2 = CL::SimplifyPaths(pp, eps, !open), r2 = CL::RamerDouglasPeucker(pp, eps);
+      CL::PathD qd; for (auto& v : q) qd.emplace_back((double)v.x / 4, (double)v.y / 4);
+      CL::PathD spd = CL::SimplifyPath(qd, eps / 4, !open), rdd = CL::RamerDouglasPeucker(qd, eps / 4), td = CL::TrimCollinear(qd, 2, open);
+      BoolOut o = VFC_NS::boolop(2, 1, VFC_NS::from64(CL::Paths64{q}), Paths(), Paths(), true, false);
+      CL::ClipperOffset co; co.AddPath(q, CL::JoinType::Round, open ? CL::EndType::Round : CL::EndType::Polygon); CL::Paths64 os; co.Execute(5.0 * (double)M, os);
+      bump(C_LIB, 13); if (sp.size() != q.size()) bump(C_NONTRIVIAL); },
+    [&](u64 i) { bool open = i % 2; i /= 2; bool ell = i % 2; i /= 2; Case k; k.set("f", "longpaths").set("n", LENS[i]).set("shape", ell ? "ellipse" : "zigzag").set("open", open).set("mag", magclass); return k.s(); }});
   // ---- F9: C export functions with null pointers, empty arrays and small paths
   if (magclass == 0 && want("exports")) fam.push_back({"exports", N2 * 5 * 3, [&](u64 i, bool) {
       int variant = i % 3; i /= 3; int ct = i % 5; i /= 5; const Path& p = P2[i];
